@@ -4,7 +4,16 @@
 // associative (Empty = 7, Combine(a,b) = (31a+b) mod 1000003).
 //
 // line in : ops separated by blanks: N:1,2,3 (N: = New()), C:x:r, T:r, H:r, L:r, E:r, F:r
-// line out: <list observations> | <slice observations> | persist=ok|FAIL:<impl>:op<i>:<what>
+// line out: <list observations> | <slice observations> | persist=ok|FAIL:<impl>:op<i>:<what> | ty[<order>]=ok|<T>:<impl>:<k>:<obs at T>:<obs at int>;...
+//
+// The first three fields are the run at element type int64 (the one the Lean model is compared
+// with).  The interpreter is generic in the element type through a codec (inj: int -> E,
+// prj: E -> int); the same script is also run, in the same process, at E = string (strconv),
+// E = a non-empty interface type and E = any (0 is the NIL INTERFACE value, everything else a boxed
+// int; Fold uses the same monoid transported through the codec).  The projected observations at
+// every type must be literally those of the int run; the last field names the order the types were
+// run in (int first or int last, chosen by a hash of the script) and every (type, implementation)
+// whose observations or persistence verdict differ.
 //
 // A constructor's observation is the element list of the new register read back with
 // IsEmpty/Head/Tail plus its Length: [e1,e2]/len.  After EVERY operation every live register is
@@ -15,6 +24,7 @@ package main
 import (
 	"bufio"
 	"fmt"
+	"hash/fnv"
 	"os"
 	"strconv"
 	"strings"
@@ -27,8 +37,6 @@ import (
 
 const modulus = 1000003
 const walkLimit = 100000
-
-var m31 = monoid.FromOp[int64](7, func(a, b int64) int64 { return (a*31 + b) % modulus })
 
 type op struct {
 	kind byte
@@ -86,8 +94,122 @@ func try[T any](f func() T) (v T, ok bool) {
 	return f(), true
 }
 
+// codec maps the script's integers into the element type E the traits are instantiated with and back.
+// The SAME script is interpreted at every element type; observations are printed through prj, so a
+// correct (parametric) implementation gives literally the same observation list at every type.
+type codec[E any] struct {
+	name string
+	inj  func(int64) E
+	prj  func(E) (int64, bool) // false: the element is not in the image of inj
+}
+
+// monoid over E defined through the codec: Empty = inj 7, Combine(a,b) = inj((31*prj a + prj b) mod 1000003).
+func (c codec[E]) monoid() monoid.Monoid[E] {
+	return monoid.FromOp[E](c.inj(7), func(a, b E) E {
+		x, okx := c.prj(a)
+		y, oky := c.prj(b)
+		if !okx || !oky {
+			panic("codec: foreign element given to Combine")
+		}
+		return c.inj((x*31 + y) % modulus)
+	})
+}
+
+func (c codec[E]) str(e E) string {
+	v, ok := c.prj(e)
+	if !ok {
+		return "!foreign"
+	}
+	return strconv.FormatInt(v, 10)
+}
+
+// elem is a NON-EMPTY interface type; box is its only implementation.  0 is the nil interface value
+// (no dynamic type), every other integer is a boxed int.
+type elem interface{ val() int64 }
+type box int64
+
+func (b box) val() int64 { return int64(b) }
+
+// canonDec reads the canonical decimal form strconv.FormatInt writes (and nothing else) without allocating.
+func canonDec(s string) (int64, bool) {
+	d := s
+	if len(d) > 0 && d[0] == '-' {
+		d = d[1:]
+	}
+	if len(d) == 0 || len(d) > 18 || (d[0] == '0' && len(s) > 1) {
+		return 0, false
+	}
+	var v int64
+	for i := 0; i < len(d); i++ {
+		if d[i] < '0' || d[i] > '9' {
+			return 0, false
+		}
+		v = v*10 + int64(d[i]-'0')
+	}
+	if len(d) != len(s) {
+		v = -v
+	}
+	return v, true
+}
+
+var (
+	cInt   = codec[int64]{"int", func(v int64) int64 { return v }, func(v int64) (int64, bool) { return v, true }}
+	cStr   = codec[string]{"string", func(v int64) string { return strconv.FormatInt(v, 10) }, canonDec}
+	cIface = codec[elem]{"iface", func(v int64) elem {
+		if v == 0 {
+			return nil
+		}
+		return box(v)
+	}, func(e elem) (int64, bool) {
+		if e == nil {
+			return 0, true
+		}
+		b, ok := e.(box)
+		return int64(b), ok && b != 0
+	}}
+	cAny = codec[any]{"any", func(v int64) any {
+		if v == 0 {
+			return nil
+		}
+		return v
+	}, func(e any) (int64, bool) {
+		if e == nil {
+			return 0, true
+		}
+		v, ok := e.(int64)
+		return v, ok && v != 0
+	}}
+)
+
 // show reads a sequence out through the trait only: [e1,e2,...]/Length.
-func show[F any](T seq.Seq[F, int64], s F) string {
+// Fast path: the whole walk under one recover; when anything panics (or the walk does not end) the
+// walk is repeated by showSlow, which guards every single trait call and says where it stopped.
+func show[F, E any](T seq.Seq[F, E], c codec[E], s F) string {
+	str, ok := try(func() string {
+		buf := make([]byte, 0, 64)
+		buf = append(buf, '[')
+		cur := s
+		for i := 0; !T.IsEmpty(cur); i++ {
+			if i > walkLimit {
+				panic("loop")
+			}
+			if i > 0 {
+				buf = append(buf, ',')
+			}
+			buf = append(buf, c.str(T.Head(cur))...)
+			cur = T.Tail(cur)
+		}
+		buf = append(buf, ']', '/')
+		buf = strconv.AppendInt(buf, int64(T.Length(s)), 10)
+		return string(buf)
+	})
+	if ok {
+		return str
+	}
+	return showSlow(T, c, s)
+}
+
+func showSlow[F, E any](T seq.Seq[F, E], c codec[E], s F) string {
 	var sb strings.Builder
 	sb.WriteByte('[')
 	cur := s
@@ -104,7 +226,7 @@ func show[F any](T seq.Seq[F, int64], s F) string {
 		if e {
 			break
 		}
-		h, ok := try(func() int64 { return T.Head(cur) })
+		h, ok := try(func() E { return T.Head(cur) })
 		if !ok {
 			if i > 0 {
 				sb.WriteByte(',')
@@ -115,7 +237,7 @@ func show[F any](T seq.Seq[F, int64], s F) string {
 		if i > 0 {
 			sb.WriteByte(',')
 		}
-		sb.WriteString(strconv.FormatInt(h, 10))
+		sb.WriteString(c.str(h))
 		t, ok := try(func() F { return T.Tail(cur) })
 		if !ok {
 			sb.WriteString(",!panic")
@@ -133,28 +255,84 @@ func show[F any](T seq.Seq[F, int64], s F) string {
 	return sb.String()
 }
 
-type orig struct{ live, copy []int64 }
+// snapshot of a register at the time it was created: the string show gave, and (when the walk was
+// clean) the projected elements and the reported length, so that the re-reads after every operation can
+// compare without printing.  A re-read that is not literally the same falls back to comparing show's strings.
+type snapshot struct {
+	str   string
+	elems []int64
+	n     int
+	clean bool
+}
 
-func run[F any](name string, T seq.Seq[F, int64], ops []op) (obs []string, persist string) {
-	fold := seq.Foldable[F, int64]{Seq: T}
+func snap[F, E any](T seq.Seq[F, E], c codec[E], s F) snapshot {
+	sn := snapshot{str: show(T, c, s)}
+	_, sn.clean = try(func() bool {
+		cur := s
+		for i := 0; !T.IsEmpty(cur); i++ {
+			v, ok := c.prj(T.Head(cur))
+			if !ok || i > walkLimit {
+				panic("foreign")
+			}
+			sn.elems = append(sn.elems, v)
+			cur = T.Tail(cur)
+		}
+		sn.n = T.Length(s)
+		return true
+	})
+	return sn
+}
+
+// unchanged: the register reads exactly as in the snapshot (same elements, same end, same Length, no panic).
+func unchanged[F, E any](T seq.Seq[F, E], c codec[E], s F, sn *snapshot) bool {
+	if !sn.clean {
+		return false
+	}
+	same, ok := try(func() bool {
+		cur := s
+		for _, w := range sn.elems {
+			if T.IsEmpty(cur) {
+				return false
+			}
+			if v, ok := c.prj(T.Head(cur)); !ok || v != w {
+				return false
+			}
+			cur = T.Tail(cur)
+		}
+		return T.IsEmpty(cur) && T.Length(s) == sn.n
+	})
+	return ok && same
+}
+
+type orig[E any] struct {
+	live []E
+	copy []int64
+}
+
+func run[F, E any](name string, T seq.Seq[F, E], c codec[E], ops []op) (obs []string, persist string) {
+	fold := seq.Foldable[F, E]{Seq: T}
+	m31 := c.monoid()
 	var regs []F
-	var snap []string
-	var origs []orig
+	var snaps []snapshot
+	var origs []orig[E]
 	persist = "ok"
 	check := func(i int) {
 		if persist != "ok" {
 			return
 		}
-		for j := range snap { // every register that existed before this op, and the new one
-			if got := show(T, regs[j]); got != snap[j] {
-				persist = fmt.Sprintf("FAIL:%s:op%d:r%d:%s->%s", name, i, j, snap[j], got)
+		for j := range snaps { // every register that existed before this op, and the new one
+			if unchanged(T, c, regs[j], &snaps[j]) {
+				continue
+			}
+			if got := show(T, c, regs[j]); got != snaps[j].str {
+				persist = fmt.Sprintf("FAIL:%s:op%d:r%d:%s->%s", name, i, j, snaps[j].str, got)
 				return
 			}
 		}
 		for j, o := range origs {
 			for k := range o.copy {
-				if o.live[k] != o.copy[k] {
-					persist = fmt.Sprintf("FAIL:%s:op%d:caller-slice%d[%d]:%d->%d", name, i, j, k, o.copy[k], o.live[k])
+				if v, ok := c.prj(o.live[k]); !ok || v != o.copy[k] {
+					persist = fmt.Sprintf("FAIL:%s:op%d:caller-slice%d[%d]:%d->%s", name, i, j, k, o.copy[k], c.str(o.live[k]))
 					return
 				}
 			}
@@ -162,9 +340,9 @@ func run[F any](name string, T seq.Seq[F, int64], ops []op) (obs []string, persi
 	}
 	push := func(s F) {
 		regs = append(regs, s)
-		str := show(T, s)
-		snap = append(snap, str)
-		obs = append(obs, str)
+		sn := snap(T, c, s)
+		snaps = append(snaps, sn)
+		obs = append(obs, sn.str)
 	}
 	for i, o := range ops {
 		if o.kind != 'N' && o.r >= len(regs) {
@@ -174,19 +352,21 @@ func run[F any](name string, T seq.Seq[F, int64], ops []op) (obs []string, persi
 		ok := true
 		switch o.kind {
 		case 'N':
-			live := make([]int64, len(o.xs))
-			copy(live, o.xs)
+			live := make([]E, len(o.xs))
+			for k, v := range o.xs {
+				live[k] = c.inj(v)
+			}
 			cp := make([]int64, len(o.xs))
 			copy(cp, o.xs)
 			var s F
 			s, ok = try(func() F { return T.New(live...) })
 			if ok {
-				origs = append(origs, orig{live, cp})
+				origs = append(origs, orig[E]{live, cp})
 				push(s)
 			}
 		case 'C':
 			var s F
-			s, ok = try(func() F { return T.Cons(o.x, regs[o.r]) })
+			s, ok = try(func() F { return T.Cons(c.inj(o.x), regs[o.r]) })
 			if ok {
 				push(s)
 			}
@@ -197,10 +377,10 @@ func run[F any](name string, T seq.Seq[F, int64], ops []op) (obs []string, persi
 				push(s)
 			}
 		case 'H':
-			var v int64
-			v, ok = try(func() int64 { return T.Head(regs[o.r]) })
+			var v E
+			v, ok = try(func() E { return T.Head(regs[o.r]) })
 			if ok {
-				obs = append(obs, "v"+strconv.FormatInt(v, 10))
+				obs = append(obs, "v"+c.str(v))
 			}
 		case 'L':
 			var v int
@@ -215,10 +395,10 @@ func run[F any](name string, T seq.Seq[F, int64], ops []op) (obs []string, persi
 				obs = append(obs, strconv.FormatBool(v))
 			}
 		case 'F':
-			var v int64
-			v, ok = try(func() int64 { return fold.Fold(m31, regs[o.r]) })
+			var v E
+			v, ok = try(func() E { return fold.Fold(m31, regs[o.r]) })
 			if ok {
-				obs = append(obs, "v"+strconv.FormatInt(v, 10))
+				obs = append(obs, "v"+c.str(v))
 			}
 		}
 		check(i)
@@ -230,25 +410,103 @@ func run[F any](name string, T seq.Seq[F, int64], ops []op) (obs []string, persi
 	return
 }
 
+// both runs one script on the list and on the slice implementation at element type E.
+type both struct {
+	ty     string
+	lo, so []string
+	lp, sp string
+}
+
+func runTy[E any](c codec[E], ops []op) (b both) {
+	b.ty = c.name
+	defer func() { // the interpreter itself guards every trait call; anything that still escapes is an observation too
+		if r := recover(); r != nil {
+			b.lo, b.so = append(b.lo, "!crash"), append(b.so, "!crash")
+		}
+	}()
+	b.lo, b.lp = run[list.Seq[E], E]("list", list.Trait[E]("seq."+c.name), c, ops)
+	b.so, b.sp = run[slice.Seq[E], E]("slice", slice.Trait[E]("seq."+c.name), c, ops)
+	return
+}
+
+// the element types every script is run at; int is the one the Lean model is compared with.
+var runners = []func([]op) both{
+	func(ops []op) both { return runTy(cInt, ops) },
+	func(ops []op) both { return runTy(cStr, ops) },
+	func(ops []op) both { return runTy(cIface, ops) },
+	func(ops []op) both { return runTy(cAny, ops) },
+}
+
+// firstDiff: <k>:<observation at the other type>:<observation at int>, "" when equal.
+func firstDiff(got, want []string) string {
+	for k := 0; k < len(got) || k < len(want); k++ {
+		g, w := "<none>", "<none>"
+		if k < len(got) {
+			g = got[k]
+		}
+		if k < len(want) {
+			w = want[k]
+		}
+		if g != w {
+			return fmt.Sprintf("%d:%s:%s", k, g, w)
+		}
+	}
+	return ""
+}
+
 func main() {
 	in := bufio.NewScanner(os.Stdin)
 	in.Buffer(make([]byte, 1<<22), 1<<22)
 	out := bufio.NewWriter(os.Stdout)
 	defer out.Flush()
 	for in.Scan() {
-		ops, ok := parse(in.Text())
+		line := in.Text()
+		ops, ok := parse(line)
 		if !ok {
 			fmt.Fprintln(out, "bad-op")
 			continue
 		}
-		lo, lp := run[list.Seq[int64]]("list", list.Trait[int64]("seq.int64"), ops)
-		so, sp := run[slice.Seq[int64]]("slice", slice.Trait[int64]("seq.int64"), ops)
-		p := "ok"
-		if lp != "ok" {
-			p = lp
-		} else if sp != "ok" {
-			p = sp
+		// Order of the element types: int first / int last, decided by the script text (so that a replay
+		// of the same script runs in the same order).
+		h := fnv.New32a()
+		h.Write([]byte(line))
+		rev := h.Sum32()&1 == 1
+		res := make([]both, len(runners))
+		var order []string
+		for i := range runners {
+			j := i
+			if rev {
+				j = len(runners) - 1 - i
+			}
+			res[j] = runners[j](ops)
+			order = append(order, res[j].ty)
 		}
-		fmt.Fprintf(out, "%s | %s | persist=%s\n", strings.Join(lo, " "), strings.Join(so, " "), p)
+		it := res[0]
+		p := "ok"
+		if it.lp != "ok" {
+			p = it.lp
+		} else if it.sp != "ok" {
+			p = it.sp
+		}
+		// every other element type against the int run of the same implementation
+		var bad []string
+		for _, r := range res[1:] {
+			for _, x := range []struct {
+				impl       string
+				got, want  []string
+				gotp, intp string
+			}{{"list", r.lo, it.lo, r.lp, it.lp}, {"slice", r.so, it.so, r.sp, it.sp}} {
+				if d := firstDiff(x.got, x.want); d != "" {
+					bad = append(bad, r.ty+":"+x.impl+":"+d)
+				} else if x.gotp != x.intp {
+					bad = append(bad, r.ty+":"+x.impl+":persist:"+x.gotp)
+				}
+			}
+		}
+		ty := "ok"
+		if len(bad) > 0 {
+			ty = strings.Join(bad, ";")
+		}
+		fmt.Fprintf(out, "%s | %s | persist=%s | ty[%s]=%s\n", strings.Join(it.lo, " "), strings.Join(it.so, " "), p, strings.Join(order, ","), ty)
 	}
 }
